@@ -4,6 +4,7 @@ import M3d.Model.Bisect
 import M3d.Model.DualContour
 import M3d.Model.MarchingFilter
 import M3d.Model.MarchingGlue
+import M3d.Model.SearchSpec
 import M3d.Gen.McTable
 /-! Line-protocol handler for C02. Core-only. -/
 namespace M3d.Drv.C02
@@ -510,6 +511,164 @@ def handleC2f3 (ws : List String) : Option String := do
       let out := sortStrs (vs.map show3)
       some s!"n={out.length} side=1 near=1 {";".intercalate out}"
 
+
+/-! ### search refinement on the library's own floating-point lattice (`mcl` / `msl`) -/
+
+def hexRat (s : String) : Option Rat := do ratOfBits (← parseHex s).toUInt64
+
+def takeHexRats (n : Nat) (ws : List String) : Option (List Rat × List String) := do
+  let rs ← (ws.take n).mapM hexRat
+  if rs.length ≠ n then none else some (rs, ws.drop n)
+
+/-- only boxes and axis half-spaces (`Contains` = comparisons of doubles, exact) -/
+def boxesOnly : Csg → Bool
+  | .box _ => true
+  | .half _ => true
+  | .or a b => boxesOnly a && boxesOnly b
+  | .and a b => boxesOnly a && boxesOnly b
+  | .sub a b => boxesOnly a && boxesOnly b
+  | _ => false
+
+/-- the face coordinates of the solid on axis `k`: between two consecutive ones the classification along a
+line parallel to that axis is constant -/
+def faceCoords (k : Nat) : Csg → List Rat
+  | .box p => [p[k]!, p[k + 3]!]
+  | .half p => if p[0]! == (k : Rat) then [p[2]!] else []
+  | .or a b => faceCoords k a ++ faceCoords k b
+  | .and a b => faceCoords k a ++ faceCoords k b
+  | .sub a b => faceCoords k a ++ faceCoords k b
+  | _ => []
+
+def dedupRats : List Rat → List Rat
+  | a :: b :: r => if a == b then dedupRats (b :: r) else a :: dedupRats (b :: r)
+  | l => l
+
+def indexOfRat (xs : List Rat) (v : Rat) : Option Nat :=
+  let i := xs.findIdx (· == v)
+  if i < xs.length then some i else none
+
+/-- `i` with `xs[i] < v < xs[i+1]` -/
+def cellOfRat (xs : List Rat) (v : Rat) : Option Nat :=
+  let i := (xs.zip (xs.drop 1)).findIdx fun p => decide (p.1 < v) && decide (v < p.2)
+  if i + 1 < xs.length then some i else none
+
+def pow2 (n : Nat) : Rat := ((2 ^ n : Nat) : Rat)
+
+/-- `mcl iters interior δ Min(3) NX NY NZ xs… ys… zs… <csg> V n <vertices (and interior points)>` (`msl`: two axes):
+the REAL lattice arrays, the solid and the REAL output of `MarchingCubesSearch` / `…Interior` /
+`…SearchFilter` (2-D twins), all as the exact rational values of the doubles.  The answer is what the
+property demands, evaluated exactly: `n=` the number of lattice edges whose ends are classified differently,
+`bad=-` iff every vertex lies on a lattice edge, the edges carrying a vertex are exactly those edges, one
+vertex each, every vertex is within `δ/2^iters` of a point of its edge at which the classification changes
+(`SearchSpec.nearTransition` over the face coordinates of the solid on that axis), and every interior point
+is contained.  (`mc_vertex_iff_sign_change`, `mc_one_vertex_per_edge`,
+`search_stored_lattice_near_transition`, `ms_search_recomputed_ends_near_transition`,
+`near_transition_decides`, `interior_point_contained`.) -/
+def handleLat (dim : Nat) (ws : List String) : Option String := do
+  let iters ← (← ws[0]?).toNat?
+  let interior ← (← ws[1]?).toNat?
+  let delta ← hexRat (← ws[2]?)
+  let (mn, rest) ← takeHexRats dim (ws.drop 3)
+  let ns ← (rest.take dim).mapM (·.toNat?)
+  if ns.length ≠ dim then none
+  let rec takeAxes : List Nat → List String → Option (List (List Rat) × List String)
+    | [], r => some ([], r)
+    | n :: more, r => do
+      let (a, r) ← takeHexRats n r
+      let (as, r) ← takeAxes more r
+      some (a :: as, r)
+  let (axes, r) ← takeAxes ns (rest.drop dim)
+  let (t, r) ← parseCsg r
+  if !boxesOnly t then none
+  let C := fun (p : List Rat) => contains t (p.getD 0 0) (p.getD 1 0) (p.getD 2 0)
+  let nx := ns.getD 0 1; let ny := ns.getD 1 1; let nz := if dim == 3 then ns.getD 2 1 else 1
+  let pt := fun (x y z : Nat) =>
+    [(axes.getD 0 []).getD x 0, (axes.getD 1 []).getD y 0] ++ (if dim == 3 then [(axes.getD 2 []).getD z 0] else [])
+  let b := labelArray3 (fun x y z => C (pt x y z)) nx ny nz
+  -- sign-changing lattice edges as (axis, [x, y, z])
+  let want : List (Nat × List Nat) := (signEdges3 b nx ny nz).map fun e => (e.2, [e.1.1, e.1.2.1, e.1.2.2])
+  let ename := fun (e : Nat × List Nat) => s!"{e.1}." ++ ".".intercalate ((e.2.take dim).map toString)
+  let w := delta / pow2 iters
+  let breaks := fun (k : Nat) (lo hi : Rat) => dedupRats (sortBy (fun a b => decide (a < b))
+    (lo :: hi :: (faceCoords k t).filter fun c => decide (lo < c) && decide (c < hi)))
+  -- the model on the real lattice: for every sign-changing edge the model of the edge lookup, applied to the
+  -- edge's midpoint, must return the STORED ends (3-D: `lookup_edge_arr_recovers`) or ends within `η` of them
+  -- (2-D, `ms_lookup_drift`; `η` is measured and must satisfy the hypothesis of
+  -- `ms_search_recomputed_ends_near_transition`), and the model's refined vertex must pass the check
+  -- (`search_stored_lattice_near_transition`, `ms_search_recomputed_ends_near_transition`)
+  let modelBad : List String := want.filterMap fun e =>
+    let k := e.1
+    let xs := axes.getD k []
+    let i := e.2.getD k 0
+    let lo := xs.getD i 0; let hi := xs.getD (i + 1) 0
+    let p0 := pt (e.2.getD 0 0) (e.2.getD 1 0) (e.2.getD 2 0)
+    let m := p0.set k ((lo + hi) / 2)
+    let P := fun (x : Rat) => C (m.set k x)
+    let ts := breaks k lo hi
+    if dim == 3 then
+      if SearchSpec.lookupEdgeArr axes m != some (k, lo, hi) then
+        some s!"{ename e}:model-lookup-does-not-return-the-stored-ends"
+      else if !SearchSpec.nearTransition P ts (Bisect.mcSearchPoint P lo hi iters).1 w then
+        some s!"{ename e}:model-vertex-fails-the-check"
+      else none
+    else
+      match Bisect.msLookup mn delta m with
+      | some (k', lo', hi') =>
+        let η := max (if lo' < lo then lo - lo' else lo' - lo) (if hi' < hi then hi - hi' else hi' - hi)
+        if k' != k || !(decide (η ≤ (hi' - lo') / pow2 iters)) || !(decide ((hi' - lo') / pow2 (iters + 1) + η ≤ w)) then
+          some s!"{ename e}:model-window-ends-too-far-from-the-stored-ends"
+        else if !SearchSpec.nearTransition P ts (Bisect.msSearchPoint P lo' hi' (P lo) iters) w then
+          some s!"{ename e}:model-vertex-fails-the-check"
+        else none
+      | none => some s!"{ename e}:model-window-finds-no-axis"
+  if !modelBad.isEmpty then some s!"n={want.length} bad={";".intercalate (modelBad.take 3)}" else
+  match r with
+  | "V" :: cnt :: coords =>
+    let n ← cnt.toNat?
+    let per := if interior == 1 then 2 * dim else dim
+    let (vals, _) ← takeHexRats (n * per) coords
+    -- one vertex: its edge, or a complaint
+    let one : List Rat → (Option (Nat × List Nat)) × List String := fun rec =>
+      let v := rec.take dim
+      let ip := rec.drop dim
+      let idx := (List.range dim).map fun k => indexOfRat (axes.getD k []) (v.getD k 0)
+      let offs := (List.range dim).filter fun k => (idx.getD k none).isNone
+      match offs with
+      | [k] =>
+        let xs := axes.getD k []
+        match cellOfRat xs (v.getD k 0) with
+        | none => (none, ["vertex-outside-the-lattice"])
+        | some i =>
+          let lo := xs.getD i 0; let hi := xs.getD (i + 1) 0
+          let e : Nat × List Nat := (k, ((List.range 3).map fun j => if j == k then i else (idx.getD j none).getD 0))
+          let P := fun (x : Rat) => C (v.set k x)
+          let ts := breaks k lo hi
+          let far := if SearchSpec.nearTransition P ts (v.getD k 0) w then [] else
+            [s!"{ename e}:no-transition-within-delta/2^iters-of-the-vertex"]
+          -- "a nearby point which is known to be contained within the solid": containment is what is demanded
+          let inb := if interior != 1 || C ip then [] else [s!"{ename e}:interior-point-not-contained"]
+          (some e, far ++ inb)
+      | [] => (none, ["vertex-on-a-lattice-point"])
+      | _ => (none, ["vertex-off-the-lattice-lines"])
+    let rec chunks : Nat → List Rat → List (List Rat)
+      | 0, _ => []
+      | m + 1, l => l.take per :: chunks m (l.drop per)
+    let rs := (chunks n vals).map one
+    let got := rs.filterMap (·.1)
+    let complaints := rs.flatMap (·.2)
+    let names := sortStrs (got.map ename)
+    let wantNames := sortStrs (want.map ename)
+    let rec dups : List String → List String
+      | a :: c :: r => if a == c then [s!"{a}:two-vertices-on-one-edge"] else dups (c :: r)
+      | _ => []
+    let missing := (wantNames.filter fun e => !names.contains e).map (· ++ ":sign-changing-edge-without-vertex")
+    let extra := (dedupSorted names |>.filter fun e => !wantNames.contains e).map (· ++ ":vertex-on-an-edge-whose-ends-agree")
+    let all := complaints ++ dups names ++ missing ++ extra
+    let bad := if all.isEmpty then "-" else ";".intercalate (all.take 4)
+    -- a complaint makes the line differ from the implementation's `n=<vertices> bad=-`
+    some s!"n={want.length} bad={bad}"
+  | _ => some s!"n={want.length} bad=-"
+
 def handleAll (ws : List String) : Option String :=
   match ws with
   | "mcv" :: rest => handleMcv false rest
@@ -518,6 +677,8 @@ def handleAll (ws : List String) : Option String :=
   | "msf" :: rest => handleMsv true rest
   | "mcs" :: rest => handleMcs rest
   | "mss" :: rest => handleMss rest
+  | "mcl" :: rest => handleLat 3 rest
+  | "msl" :: rest => handleLat 2 rest
   | "bis" :: rest => handleBis rest
   | "bis2" :: rest => handleBis2 rest
   | "dcidx" :: rest => handleDcIdx rest
